@@ -95,9 +95,62 @@ def binop(m, st, op, a, b):
             # checked arithmetic on a word would need a whole-word overflow proof
             raise Unanalysable("checked %s on SWAR word" % op)
         return ("word", (WORD_OPS[op], wexpr_of(a), wexpr_of(b)), bits, signed)
-    if op.endswith("WithOverflow"):
-        raise Unanalysable("checked arithmetic on SWAR word")
-    raise Unanalysable("operator %s on SWAR word" % op)
+    # anything else (shifts, checked arithmetic, multiplication): enumerate the block when it is
+    # small enough -- fork the lanes to single values and compute on integers
+    ca = word_value(m, st, a)
+    cb = word_value(m, st, b)
+    return m.binop(st, op, ca, cb)
+
+
+def eval_concrete(e, nlanes):
+    k = e[0]
+    if k == "leaf":
+        x = 0
+        for i, lv in enumerate(e[1]):
+            x |= (lv[1] & 0xFF) << (8 * i)
+        return x
+    if k == "const":
+        return e[1] & ((1 << (8 * nlanes)) - 1)
+    mask = (1 << (8 * nlanes)) - 1
+    if k == "not":
+        return (~eval_concrete(e[1], nlanes)) & mask
+    a, b = eval_concrete(e[1], nlanes), eval_concrete(e[2], nlanes)
+    return {"and": a & b, "or": a | b, "xor": a ^ b, "sub": (a - b) & mask, "add": (a + b) & mask}[k]
+
+
+def word_value(m, st, v):
+    """Concrete integer of a word (forking its byte lanes to single values when the joint
+    domain is small); ints pass through."""
+    if v[0] == "int":
+        return v
+    if v[0] != "word":
+        raise Unanalysable("word operand of kind %s" % v[0])
+    leaf = leaf_of(v[1])
+    total = 1
+    for lv in leaf[1]:
+        if lv[0] == "cell":
+            tab = TABLES.get(lv[2])
+            total *= len(set(tab[b] for b in mask_vals(st.cells[lv[1]])))
+    if total > 8192:
+        raise Unanalysable("arithmetic on a byte-packed word with %d possible values" % total)
+    lanes2 = []
+    for lv in leaf[1]:
+        if lv[0] == "cell":
+            c = m.partition(st, lv)  # forks until the lane is a single value
+            lanes2.append(c)
+        else:
+            lanes2.append(lv)
+
+    def subst(e):
+        if e[0] == "leaf":
+            return ("leaf", tuple(lanes2))
+        if e[0] == "const":
+            return e
+        if e[0] == "not":
+            return ("not", subst(e[1]))
+        return (e[0], subst(e[1]), subst(e[2]))
+
+    return mk_int(eval_concrete(subst(v[1]), v[2] // 8), v[2], v[3])
 
 
 # ---- lane-serial evaluation -----------------------------------------------------------------
@@ -310,7 +363,7 @@ def concretize(m, st, v):
     if k == "wlane":
         raise Unanalysable("branch on the numeric value of a SWAR lane")
     if k == "word":
-        raise Unanalysable("branch on the numeric value of a SWAR word")
+        return word_value(m, st, v)
     if k == "bitv":
         # all bits decided?
         x = 0
@@ -548,7 +601,9 @@ def bit_op(m, st, op, x, y):
         tx, ty_ = TABLES.get(x[2]), TABLES.get(y[2])
         f = {"BitAnd": lambda p, q: p & q, "BitOr": lambda p, q: p | q, "BitXor": lambda p, q: p ^ q}[op]
         return m.mk_cell(st, x[1], tuple(f(tx[i] & 1, ty_[i] & 1) for i in range(256)), 1, False)
-    raise Unanalysable("bit operation mixing different input bytes")
+    # bits of two different input bytes: decide one of them
+    cx = m.concretize(st, x)
+    return bit_op(m, st, op, cx, y)
 
 
 def bit_count(m, st, which, v):
